@@ -113,12 +113,18 @@ partial def sharedOf (label : String) : Val → Val → List String
 def sortDedup (xs : List String) : List String :=
   (xs.toArray.qsort (· < ·)).toList.eraseDups
 
-def parseAct : String → Option Act
-  | "n" => some .continue
-  | "c" => some .consume
-  | "d" => some .done
-  | "e" => some .error
-  | _ => none
+/-- the handler calls of a script, in order: c Consume(), d SetDone(), e SetError(non-nil), z SetError(nil); "n" = none -/
+def parseCalls (s : String) : Option (List Call) :=
+  if s == "n" then some []
+  else s.toList.mapM (fun c => match c with
+    | 'c' => some Call.consume
+    | 'd' => some Call.setDone
+    | 'e' => some (Call.setError false)
+    | 'z' => some (Call.setError true)
+    | _ => none)
+
+/-- their net effect on the handler (`calls_eq_apply`: exact) -/
+def parseAct (s : String) : Option Act := (parseCalls s).map actOf
 
 /-- in which callbacks a scripted visitor acts (see harness/c11.go, c11Script) -/
 inductive Sel where
